@@ -1312,6 +1312,11 @@ func (w *Walker) stdModel(name string, args []*Term, rt types.Type) *Term {
 	return nil
 }
 
+// isWriterName: callees known to fill the slice they are given (socket and io reads, binary puts are pure-modelled).
+func isWriterName(name string) bool {
+	return strings.Contains(name, "Read") || strings.HasPrefix(name, "io.") || strings.HasPrefix(name, "dyn:") || strings.HasPrefix(name, "invoke:")
+}
+
 func (w *Walker) havoc(a *Term, by string) {
 	if a == nil {
 		return
@@ -1319,6 +1324,12 @@ func (w *Walker) havoc(a *Term, by string) {
 	switch a.Op {
 	case "iface":
 		w.havoc(a.Args[0], by)
+	case "sref":
+		// the callee may write the elements of a local buffer it is handed (reads into buffers)
+		if a.Cell != nil && !a.Cell.Sym && isWriterName(by) {
+			id := w.fresh("havoc")
+			a.Cell.Val = &Term{Op: "fresh", Name: fmt.Sprintf("%s'%d", a.Cell.Name, id), Typ: a.Cell.Typ}
+		}
 	case "ptr":
 		if a.Cell != nil && !a.Cell.Sym {
 			id := w.fresh("havoc")
